@@ -205,7 +205,7 @@ def _lean_path():
 
 
 def gen_audit(prop):
-    """Regenerate RxGen/Kernels.lean, RxGen/Handlers.lean, RxGen/Store.lean and RxGen/Text.lean from the CURRENT source (REPO).  When the texts equal the
+    """Regenerate RxGen/Kernels.lean, RxGen/Handlers.lean, RxGen/Store.lean, RxGen/Text.lean and RxGen/Codec.lean from the CURRENT source (REPO).  When the texts equal the
     committed copies, the link theorems built by `lake build` are about the current source.  Otherwise the fresh texts and the
     property's link modules are compiled out of tree (nothing under lean/ is touched, so concurrent runs against other source
     trees do not interfere) and the link theorems must still check against the fresh definitions.
@@ -219,13 +219,13 @@ def gen_audit(prop):
     texts = {}
     errs = {}
     try:
-        for name, fn in (('Kernels', pygen.generate), ('Handlers', pygen.generate_handlers), ('Store', pygen.generate_store), ('Text', pygen.generate_text)):
+        for name, fn in (('Kernels', pygen.generate), ('Handlers', pygen.generate_handlers), ('Store', pygen.generate_store), ('Text', pygen.generate_text), ('Codec', pygen.generate_codec)):
             texts[name], e = fn(REPO)
             errs.update(e)
     except Exception as e:       # noqa
         return False, {'modules': mods, 'error': 'translator failed: %r' % (e,)}, None
     info['untranslatable'] = errs
-    info['definitions'] = len(pygen.KERNELS) + len(pygen.STAGES) + len(pygen.HANDLERS) + len(pygen.OBS) + len(pygen.STORE_METHODS) + 3 - len(errs)
+    info['definitions'] = len(pygen.KERNELS) + len(pygen.STAGES) + len(pygen.HANDLERS) + len(pygen.OBS) + len(pygen.STORE_METHODS) + 4 + 3 + 2 + 1 + 8 - len(errs)
     info['generated_sha'] = {k: hashlib.sha256(v.encode()).hexdigest()[:16] for k, v in texts.items()}
     same = True
     for name, text in texts.items():
